@@ -260,6 +260,654 @@ Proof.
 Qed.
 
 (* ------------------------------------------------------------------ *)
+(* trigger_event in terms of the specification-side [responsible]     *)
+(* ------------------------------------------------------------------ *)
+Definition unhandled_method (ev : pv) : list eff * Res (option pv) :=
+  match ev with
+  | PStr _ => ([], Ok (Some PNone))
+  | _ => if truthy ev then ([], Err TypeError) else ([], Ok (Some PNone))
+  end.
+
+Lemma te_pure_responsible c ev ns args :
+  is_unhashable ev = false ->
+  te_pure c ev ns args =
+  match responsible c ev ns args with
+  | None => ([], Ok None)
+  | Some (Some h, a) => some_res (cwr_pure c ev h a)
+  | Some (None, a) => unhandled_method ev
+  end.
+Proof.
+  intro Hh. unfold te_pure, responsible, unhandled_method. rewrite Hh.
+  destruct (get_event_handler c ev ns args) as [[h a]|]; [reflexivity|].
+  destruct (get_namespace_handler c ns args) as [[methods a]|]; [|reflexivity].
+  destruct ev; reflexivity.
+Qed.
+
+Lemma reserved_not_disconnect ev : reserved ev = false -> is_disconnect ev = false.
+Proof.
+  unfold reserved, is_disconnect. destruct ev; try reflexivity.
+  intro H. apply orb_false_iff in H as [_ H]. cbn [pv_eqb]. exact H.
+Qed.
+
+Lemma cwr_pure_plain c ev h a : is_disconnect ev = false -> cwr_pure c ev h a = ch_pure c h a.
+Proof.
+  intro H. unfold cwr_pure. rewrite H.
+  destruct (ch_pure c h a) as [e1 [v|x]]; [reflexivity|]. destruct x; reflexivity.
+Qed.
+
+(* ------------------------------------------------------------------ *)
+(* association lists                                                  *)
+(* ------------------------------------------------------------------ *)
+Section AssocGen.
+  Context {K V : Type} (eqb : K -> K -> bool).
+  Implicit Types (l : list (K * V)).
+
+  Lemma aget_aset_same l k v : eqb k k = true -> aget eqb (aset eqb l k v) k = Some v.
+  Proof.
+    intro Hr. induction l as [|[k' v'] l IH]; cbn [aset aget]; [rewrite Hr; reflexivity|].
+    destruct (eqb k' k) eqn:E; cbn [aget]; rewrite E; [reflexivity|exact IH].
+  Qed.
+  Lemma aset_aget_id l k v : aget eqb l k = Some v -> aset eqb l k v = l.
+  Proof.
+    induction l as [|[k' v'] l IH]; cbn [aset aget]; [discriminate|].
+    destruct (eqb k' k); intro H; [inversion H; reflexivity|rewrite IH by exact H; reflexivity].
+  Qed.
+  (* a query q that no key matched by k answers to *)
+  Lemma aget_aset_frame l k v q :
+    (forall k', eqb k' k = true -> eqb k' q = false) -> eqb k q = false ->
+    aget eqb (aset eqb l k v) q = aget eqb l q.
+  Proof.
+    intros Hf Hkq. induction l as [|[k' v'] l IH]; cbn [aset aget]; [rewrite Hkq; reflexivity|].
+    destruct (eqb k' k) eqn:E; cbn [aget].
+    - rewrite (Hf _ E). reflexivity.
+    - rewrite IH. reflexivity.
+  Qed.
+  Lemma aget_adel_frame l k q :
+    (forall k', eqb k' k = true -> eqb k' q = false) -> aget eqb (adel eqb l k) q = aget eqb l q.
+  Proof.
+    intros Hf. induction l as [|[k' v'] l IH]; cbn [adel aget]; [reflexivity|].
+    destruct (eqb k' k) eqn:E; cbn [aget].
+    - rewrite (Hf _ E). reflexivity.
+    - rewrite IH. reflexivity.
+  Qed.
+  Lemma adel_aset_new l k v : aget eqb l k = None -> eqb k k = true -> adel eqb (aset eqb l k v) k = l.
+  Proof.
+    intros Hn Hr. induction l as [|[k' v'] l IH]; cbn [aset adel aget] in *; [rewrite Hr; reflexivity|].
+    destruct (eqb k' k) eqn:E; [discriminate|]. cbn [adel]. rewrite E, IH by exact Hn. reflexivity.
+  Qed.
+  Lemma aget_some_in l k v : aget eqb l k = Some v -> exists k', In (k', v) l /\ eqb k' k = true.
+  Proof.
+    induction l as [|[k' v'] l IH]; cbn [aget]; [discriminate|].
+    destruct (eqb k' k) eqn:E; intro H.
+    - inversion H; subst. exists k'. split; [left; reflexivity|exact E].
+    - destruct (IH H) as (k0 & Hin & Hk). exists k0. split; [right; exact Hin|exact Hk].
+  Qed.
+  Lemma in_aset l k v x : In x (aset eqb l k v) -> In x l \/ snd x = v.
+  Proof.
+    induction l as [|[k' v'] l IH]; cbn [aset].
+    - intros [H|[]]. right. subst x. reflexivity.
+    - destruct (eqb k' k).
+      + intros [H|H]; [right; subst x; reflexivity|left; right; exact H].
+      + intros [H|H]; [left; left; exact H|]. destruct (IH H) as [H1|H1]; [left; right; exact H1|right; exact H1].
+  Qed.
+  Lemma in_aset_key l k v x : In x (aset eqb l k v) -> In (fst x) (map fst l) \/ fst x = k.
+  Proof.
+    induction l as [|[k' v'] l IH]; cbn [aset].
+    - intros [H|[]]. right. subst x. reflexivity.
+    - destruct (eqb k' k).
+      + intros [H|H]; [left; left; subst x; reflexivity|left; right; apply in_map; exact H].
+      + intros [H|H]; [left; left; subst x; reflexivity|].
+        destruct (IH H) as [H1|H1]; [left; right; exact H1|right; exact H1].
+  Qed.
+  Lemma in_adel l k x : In x (adel eqb l k) -> In x l.
+  Proof.
+    induction l as [|[k' v'] l IH]; cbn [adel]; [intros []|].
+    destruct (eqb k' k); [intro H; right; exact H|]. intros [H|H]; [left; exact H|right; exact (IH H)].
+  Qed.
+End AssocGen.
+
+(* keys compared by a decidable Leibniz equality (strings) *)
+Section AssocStr.
+  Context {V : Type}.
+  Implicit Types (l : list (str * V)).
+
+  Lemma saget_none l k : aget str_eqb l k = None <-> ~ In k (map fst l).
+  Proof.
+    induction l as [|[k' v'] l IH]; cbn [aget map fst In]; [tauto|].
+    destruct (str_eqb k' k) eqn:E.
+    - apply str_eqb_eq in E. subst. split; [discriminate|]. intro H. exfalso. apply H. left. reflexivity.
+    - rewrite IH. split; [|tauto]. intros H [H1|H1]; [|tauto]. subst. rewrite str_eqb_refl in E. discriminate.
+  Qed.
+  Lemma saget_in l k v : aget str_eqb l k = Some v -> In (k, v) l.
+  Proof.
+    intro H. destruct (aget_some_in _ _ _ _ H) as (k' & Hin & Hk). apply str_eqb_eq in Hk. subst. exact Hin.
+  Qed.
+  Lemma sin_aget l k v : NoDup (map fst l) -> In (k, v) l -> aget str_eqb l k = Some v.
+  Proof.
+    induction l as [|[k' v'] l IH]; cbn [aget map fst]; [intros _ []|].
+    intros Hnd [H|H].
+    - inversion H; subst. rewrite str_eqb_refl. reflexivity.
+    - inversion Hnd as [|? ? Hnot Hnd']; subst.
+      destruct (str_eqb k' k) eqn:E; [|apply IH; assumption].
+      apply str_eqb_eq in E. subst. exfalso. apply Hnot. apply (in_map fst) in H. exact H.
+  Qed.
+  Lemma skeys_aset l k v : NoDup (map fst l) -> NoDup (map fst (aset str_eqb l k v)).
+  Proof.
+    induction l as [|[k' v'] l IH]; cbn [aset map fst]; intro H; [repeat constructor; intros []|].
+    inversion H as [|? ? Hnot Hnd]; subst.
+    destruct (str_eqb k' k) eqn:E; cbn [map fst]; [exact H|].
+    constructor; [|exact (IH Hnd)].
+    intro Hin. apply in_map_iff in Hin as (x & Hx & Hin).
+    destruct (in_aset_key _ _ _ _ _ Hin) as [H1|H1].
+    - apply Hnot. rewrite <- Hx. exact H1.
+    - rewrite Hx in H1. subst. rewrite str_eqb_refl in E. discriminate.
+  Qed.
+  Lemma skeys_adel l k : NoDup (map fst l) -> NoDup (map fst (adel str_eqb l k)).
+  Proof.
+    induction l as [|[k' v'] l IH]; cbn [adel map fst]; intro H; [exact H|].
+    inversion H as [|? ? Hnot Hnd]; subst.
+    destruct (str_eqb k' k); [exact Hnd|]. cbn [map fst]. constructor; [|exact (IH Hnd)].
+    intro Hin. apply Hnot. apply in_map_iff in Hin as (x & Hx & Hin). apply in_map_iff.
+    exists x. split; [exact Hx|]. exact (in_adel _ _ _ _ Hin).
+  Qed.
+  Lemma saget_adel_same l k : NoDup (map fst l) -> aget str_eqb (adel str_eqb l k) k = None.
+  Proof.
+    induction l as [|[k' v'] l IH]; cbn [adel map fst]; intro H; [reflexivity|].
+    inversion H as [|? ? Hnot Hnd]; subst.
+    destruct (str_eqb k' k) eqn:E.
+    - apply str_eqb_eq in E. subst. apply saget_none. exact Hnot.
+    - cbn [aget]. rewrite E. exact (IH Hnd).
+  Qed.
+  Lemma saget_aset_other l k v q : k <> q -> aget str_eqb (aset str_eqb l k v) q = aget str_eqb l q.
+  Proof.
+    intro Hne. apply aget_aset_frame.
+    - intros k' Hk. apply str_eqb_eq in Hk. subst. destruct (str_eqb k q) eqn:E; [|reflexivity].
+      apply str_eqb_eq in E. contradiction.
+    - destruct (str_eqb k q) eqn:E; [|reflexivity]. apply str_eqb_eq in E. contradiction.
+  Qed.
+  Lemma saget_adel_other l k q : k <> q -> aget str_eqb (adel str_eqb l k) q = aget str_eqb l q.
+  Proof.
+    intro Hne. apply aget_adel_frame.
+    intros k' Hk. apply str_eqb_eq in Hk. subst. destruct (str_eqb k q) eqn:E; [|reflexivity].
+    apply str_eqb_eq in E. contradiction.
+  Qed.
+End AssocStr.
+
+(* ------------------------------------------------------------------ *)
+(* room maps: the "everybody" room (key None)                          *)
+(* ------------------------------------------------------------------ *)
+Lemma room_eqb_none_r k : room_eqb k PNone = true -> k = PNone.
+Proof. destruct k; try discriminate; reflexivity. Qed.
+Lemma room_eqb_none_l k : room_eqb PNone k = true -> k = PNone.
+Proof. destruct k; try discriminate; reflexivity. Qed.
+Lemma room_eqb_none_false k : k <> PNone -> room_eqb k PNone = false.
+Proof. intro H. destruct (room_eqb k PNone) eqn:E; [|reflexivity]. apply room_eqb_none_r in E. contradiction. Qed.
+Lemma room_frame_none room : room <> PNone -> forall k', room_eqb k' room = true -> room_eqb k' PNone = false.
+Proof.
+  intros Hne k' Hk. destruct (room_eqb k' PNone) eqn:E; [|reflexivity].
+  apply room_eqb_none_r in E. subst. apply room_eqb_none_l in Hk. contradiction.
+Qed.
+
+Definition none_bd (rm : roommap) : option bidict := aget room_eqb rm PNone.
+Fixpoint none_once (rm : roommap) : Prop :=
+  match rm with
+  | [] => True
+  | (k, _) :: r => if room_eqb k PNone then none_bd r = None else none_once r
+  end.
+
+Lemma none_bd_aset_none rm v : none_bd (aset room_eqb rm PNone v) = Some v.
+Proof. apply aget_aset_same. reflexivity. Qed.
+Lemma none_bd_aset_other rm room v : room <> PNone -> none_bd (aset room_eqb rm room v) = none_bd rm.
+Proof. intro H. apply aget_aset_frame; [apply room_frame_none; exact H|apply room_eqb_none_false; exact H]. Qed.
+Lemma none_bd_adel_other rm room : room <> PNone -> none_bd (adel room_eqb rm room) = none_bd rm.
+Proof. intro H. apply aget_adel_frame. apply room_frame_none; exact H. Qed.
+Lemma none_bd_adel_none rm : none_once rm -> none_bd (adel room_eqb rm PNone) = None.
+Proof.
+  induction rm as [|[k b] r IH]; cbn [none_once adel]; [reflexivity|].
+  destruct (room_eqb k PNone) eqn:E; [intro H; exact H|].
+  intro H. unfold none_bd. cbn [aget]. rewrite E. exact (IH H).
+Qed.
+
+Lemma none_once_aset rm room v : none_once rm -> none_once (aset room_eqb rm room v).
+Proof.
+  destruct (pv_eqb room PNone) eqn:Er.
+  - apply pv_eqb_eq in Er. subst room.
+    induction rm as [|[k b] r IH]; cbn [none_once aset]; [reflexivity|].
+    destruct (room_eqb k PNone) eqn:E; cbn [none_once]; rewrite E; [tauto|exact IH].
+  - assert (Hne : room <> PNone) by (intro; subst; rewrite pv_eqb_refl in Er; discriminate).
+    induction rm as [|[k b] r IH]; cbn [none_once aset].
+    + rewrite (room_eqb_none_false _ Hne). tauto.
+    + destruct (room_eqb k room) eqn:E; cbn [none_once].
+      * rewrite (room_frame_none _ Hne _ E). tauto.
+      * destruct (room_eqb k PNone); [|exact IH]. intro H. rewrite none_bd_aset_other by exact Hne. exact H.
+Qed.
+Lemma none_once_adel rm room : none_once rm -> none_once (adel room_eqb rm room).
+Proof.
+  destruct (pv_eqb room PNone) eqn:Er.
+  - apply pv_eqb_eq in Er. subst room.
+    induction rm as [|[k b] r IH]; cbn [none_once adel]; [tauto|].
+    destruct (room_eqb k PNone) eqn:E; cbn [none_once].
+    + clear IH. intro H. induction r as [|[k' b'] r IH]; [exact I|].
+      unfold none_bd in H. cbn [aget none_once] in *. destruct (room_eqb k' PNone); [discriminate|exact (IH H)].
+    + rewrite E. exact IH.
+  - assert (Hne : room <> PNone) by (intro; subst; rewrite pv_eqb_refl in Er; discriminate).
+    induction rm as [|[k b] r IH]; cbn [none_once adel]; [tauto|].
+    destruct (room_eqb k room) eqn:E; cbn [none_once].
+    + rewrite (room_frame_none _ Hne _ E). tauto.
+    + destruct (room_eqb k PNone); [|exact IH]. intro H. rewrite none_bd_adel_other by exact Hne. exact H.
+Qed.
+
+(* ------------------------------------------------------------------ *)
+(* manager: structural invariant needed by the lifecycle theorems      *)
+(* ------------------------------------------------------------------ *)
+(* only the "everybody" rooms matter for is_connected / sid_from_eio / all_sids:
+   distinct namespace keys, one None room per namespace, distinct sids in it *)
+Definition rm_ok1 (rm : roommap) : Prop :=
+  none_once rm /\ forall b, none_bd rm = Some b -> NoDup (map fst b).
+Definition MOK (m : mgr) : Prop :=
+  NoDup (map fst (rooms m)) /\ forall ns rm, In (ns, rm) (rooms m) -> rm_ok1 rm.
+
+Lemma rm_ok1_nil : rm_ok1 [].
+Proof. split; [exact I|]. intros b H. discriminate. Qed.
+Lemma MOK_init : MOK mgr_init.
+Proof. split; [constructor|]. intros ns rm []. Qed.
+Lemma MOK_rooms m m' : rooms m' = rooms m -> MOK m -> MOK m'.
+Proof. unfold MOK. intros ->. tauto. Qed.
+Lemma MOK_ns m ns rm : MOK m -> ns_rooms m ns = Some rm -> rm_ok1 rm.
+Proof. intros [_ H] Hn. apply (H ns). apply saget_in. exact Hn. Qed.
+
+Lemma set_rooms_id m : set_rooms m (rooms m) = m.
+Proof. destruct m; reflexivity. Qed.
+
+(* writing a room map back, deleting the namespace when it became empty *)
+Definition set_ns (m : mgr) (ns : str) (rm' : roommap) : mgr :=
+  set_rooms m (match rm' with [] => adel str_eqb (rooms m) ns | _ => aset str_eqb (rooms m) ns rm' end).
+
+Lemma MOK_aset_ns m ns rm' : MOK m -> rm_ok1 rm' -> MOK (set_rooms m (aset str_eqb (rooms m) ns rm')).
+Proof.
+  intros [H1 H2] Hrm. split; cbn [rooms set_rooms].
+  - apply skeys_aset. exact H1.
+  - intros ns' rm0 Hin. destruct (in_aset _ _ _ _ _ Hin) as [H|H]; [eapply H2; exact H|].
+    cbn [snd] in H. subst. exact Hrm.
+Qed.
+Lemma MOK_adel_ns m ns : MOK m -> MOK (set_rooms m (adel str_eqb (rooms m) ns)).
+Proof.
+  intros [H1 H2]. split; cbn [rooms set_rooms].
+  - apply skeys_adel. exact H1.
+  - intros ns' rm0 Hin. eapply H2. eapply in_adel. exact Hin.
+Qed.
+Lemma MOK_set_ns m ns rm' : MOK m -> rm_ok1 rm' -> MOK (set_ns m ns rm').
+Proof.
+  intros Hm Hrm. unfold set_ns. destruct rm'; [apply MOK_adel_ns; exact Hm|apply MOK_aset_ns; assumption].
+Qed.
+Lemma ns_rooms_set_ns_same m ns rm' :
+  MOK m -> ns_rooms (set_ns m ns rm') ns = match rm' with [] => None | _ => Some rm' end.
+Proof.
+  intros [H1 _]. unfold set_ns, ns_rooms. destruct rm' as [|x r]; cbn [rooms set_rooms].
+  - apply saget_adel_same. exact H1.
+  - apply aget_aset_same. apply str_eqb_refl.
+Qed.
+Lemma ns_rooms_set_ns_other m ns rm' ns' : ns <> ns' -> ns_rooms (set_ns m ns rm') ns' = ns_rooms m ns'.
+Proof.
+  intro Hne. unfold set_ns, ns_rooms. destruct rm' as [|x r]; cbn [rooms set_rooms].
+  - apply saget_adel_other. exact Hne.
+  - apply saget_aset_other. exact Hne.
+Qed.
+
+(* ---- leave_room ---- *)
+Definition rm_leave (rm : roommap) (sid : str) (room : pv) : option roommap :=
+  match aget room_eqb rm room with
+  | None => None
+  | Some b =>
+      match bd_get b sid with
+      | None => None
+      | Some _ => Some (match adel str_eqb b sid with
+                        | [] => adel room_eqb rm room
+                        | x :: r => aset room_eqb rm room (x :: r) end)
+      end
+  end.
+
+Lemma leave_room_unfold m sid ns room :
+  leave_room m sid ns room =
+  match ns_rooms m ns with
+  | None => m
+  | Some rm => match rm_leave rm sid room with None => m | Some rm' => set_ns m ns rm' end
+  end.
+Proof.
+  unfold leave_room, rm_leave, set_ns. destruct (ns_rooms m ns) as [rm|]; [|reflexivity].
+  destruct (aget room_eqb rm room) as [b|]; [|reflexivity].
+  destruct (bd_get b sid); [|reflexivity].
+  destruct (adel str_eqb b sid) as [|x r].
+  - destruct (adel room_eqb rm room); reflexivity.
+  - destruct (aset room_eqb rm room (x :: r)); reflexivity.
+Qed.
+
+Lemma rm_leave_spec rm sid room rm' :
+  rm_ok1 rm -> rm_leave rm sid room = Some rm' ->
+  rm_ok1 rm' /\
+  (room <> PNone -> none_bd rm' = none_bd rm) /\
+  (room = PNone -> forall b', none_bd rm' = Some b' -> bd_get b' sid = None).
+Proof.
+  intros [Hno Hnd] H. unfold rm_leave in H.
+  destruct (aget room_eqb rm room) as [b|] eqn:Hb; [|discriminate].
+  destruct (bd_get b sid); [|discriminate]. inversion H; subst rm'; clear H.
+  destruct (pv_eqb room PNone) eqn:Er.
+  - apply pv_eqb_eq in Er. subst room. fold (none_bd rm) in Hb. specialize (Hnd b Hb).
+    destruct (adel str_eqb b sid) as [|x r] eqn:Hd.
+    + split; [split; [apply none_once_adel; exact Hno|]|split; [congruence|]].
+      * intros b0 H0. rewrite none_bd_adel_none in H0 by exact Hno. discriminate.
+      * intros _ b0 H0. rewrite none_bd_adel_none in H0 by exact Hno. discriminate.
+    + assert (Hk : NoDup (map fst (x :: r))) by (rewrite <- Hd; apply skeys_adel; exact Hnd).
+      assert (Hg : bd_get (x :: r) sid = None) by (rewrite <- Hd; apply saget_adel_same; exact Hnd).
+      split; [split; [apply none_once_aset; exact Hno|]|split; [congruence|]].
+      * intros b0 H0. rewrite none_bd_aset_none in H0. inversion H0; subst. exact Hk.
+      * intros _ b0 H0. rewrite none_bd_aset_none in H0. inversion H0; subst. exact Hg.
+  - assert (Hne : room <> PNone) by (intro; subst; rewrite pv_eqb_refl in Er; discriminate).
+    destruct (adel str_eqb b sid) as [|x r].
+    + split; [split; [apply none_once_adel; exact Hno|]|split; [|contradiction]].
+      * intros b0 H0. rewrite none_bd_adel_other in H0 by exact Hne. exact (Hnd _ H0).
+      * intros _. apply none_bd_adel_other. exact Hne.
+    + split; [split; [apply none_once_aset; exact Hno|]|split; [|contradiction]].
+      * intros b0 H0. rewrite none_bd_aset_other in H0 by exact Hne. exact (Hnd _ H0).
+      * intros _. apply none_bd_aset_other. exact Hne.
+Qed.
+
+Lemma room_of_none m ns : room_of m ns PNone = match ns_rooms m ns with Some rm => none_bd rm | None => None end.
+Proof. reflexivity. Qed.
+
+Lemma leave_room_spec m sid ns room :
+  MOK m ->
+  let m' := leave_room m sid ns room in
+  MOK m' /\ pending m' = pending m /\ callbacks m' = callbacks m /\
+  (forall ns', ns <> ns' -> ns_rooms m' ns' = ns_rooms m ns') /\
+  (room <> PNone -> room_of m' ns PNone = room_of m ns PNone) /\
+  (room = PNone -> eio_from_sid m' sid ns = None).
+Proof.
+  intros Hm m'. subst m'. rewrite leave_room_unfold.
+  destruct (ns_rooms m ns) as [rm|] eqn:Hns.
+  2:{ split; [exact Hm|]. split; [reflexivity|]. split; [reflexivity|]. split; [reflexivity|]. split; [reflexivity|].
+      intros _. unfold eio_from_sid. rewrite room_of_none, Hns. reflexivity. }
+  destruct (rm_leave rm sid room) as [rm'|] eqn:Hl.
+  2:{ split; [exact Hm|]. split; [reflexivity|]. split; [reflexivity|]. split; [reflexivity|]. split; [reflexivity|].
+      intros ->. unfold eio_from_sid. rewrite room_of_none, Hns.
+      unfold rm_leave in Hl. fold (none_bd rm) in Hl. destruct (none_bd rm) as [b|]; [|reflexivity].
+      destruct (bd_get b sid); [discriminate|reflexivity]. }
+  destruct (rm_leave_spec _ _ _ _ (MOK_ns _ _ _ Hm Hns) Hl) as (Hok & Hother & Hnone).
+  split; [apply MOK_set_ns; assumption|]. split; [reflexivity|]. split; [reflexivity|].
+  split; [intros ns' Hne; apply ns_rooms_set_ns_other; exact Hne|].
+  split.
+  - intro Hne. rewrite !room_of_none, ns_rooms_set_ns_same, Hns by exact Hm.
+    rewrite <- (Hother Hne). destruct rm'; reflexivity.
+  - intro He. unfold eio_from_sid. rewrite room_of_none, ns_rooms_set_ns_same by exact Hm.
+    destruct rm' as [|x r]; [reflexivity|].
+    destruct (none_bd (x :: r)) as [b'|] eqn:Hb'; [|reflexivity]. exact (Hnone He _ eq_refl).
+Qed.
+
+(* ---- a fold of leave_room over room names (basic_disconnect, close_room) ---- *)
+Lemma fold_leave_spec sid ns names : forall m,
+  MOK m ->
+  let m' := fold_left (fun m r => leave_room m sid ns r) names m in
+  MOK m' /\ pending m' = pending m /\ callbacks m' = callbacks m /\
+  (forall ns', ns <> ns' -> ns_rooms m' ns' = ns_rooms m ns') /\
+  (In PNone names \/ eio_from_sid m sid ns = None -> eio_from_sid m' sid ns = None) /\
+  (~ In PNone names -> room_of m' ns PNone = room_of m ns PNone).
+Proof.
+  induction names as [|r names IH]; intros m Hm; cbn [fold_left].
+  - split; [exact Hm|]. split; [reflexivity|]. split; [reflexivity|]. split; [reflexivity|].
+    split; [intros [[]|H]; exact H|reflexivity].
+  - destruct (leave_room_spec m sid ns r Hm) as (Hm1 & Hp1 & Hc1 & Hf1 & Ho1 & Hn1).
+    destruct (IH _ Hm1) as (Hm2 & Hp2 & Hc2 & Hf2 & He2 & Hr2).
+    split; [exact Hm2|]. split; [congruence|]. split; [congruence|].
+    split; [intros ns' Hne; rewrite Hf2, Hf1 by exact Hne; reflexivity|]. split.
+    + intros H. apply He2.
+      destruct (pv_eqb r PNone) eqn:Er.
+      * apply pv_eqb_eq in Er. right. apply Hn1. exact Er.
+      * assert (Hne : r <> PNone) by (intro; subst; rewrite pv_eqb_refl in Er; discriminate).
+        destruct H as [[H|H]|H]; [congruence|left; exact H|].
+        right. unfold eio_from_sid in *. rewrite (Ho1 Hne). exact H.
+    + intro Hnot. rewrite Hr2 by (intro; apply Hnot; right; assumption).
+      apply Ho1. intro; apply Hnot; left; assumption.
+Qed.
+
+(* ---- basic_disconnect ---- *)
+Definition disc_names (rm : roommap) (sid : str) : list pv :=
+  map fst (filter (fun rb => match bd_get (snd rb) sid with Some _ => true | None => false end) rm).
+
+Lemma disc_names_none rm sid b e :
+  none_bd rm = Some b -> bd_get b sid = Some e -> In PNone (disc_names rm sid).
+Proof.
+  intros Hb Hg. destruct (aget_some_in _ _ _ _ Hb) as (k' & Hin & Hk).
+  apply room_eqb_none_r in Hk. subst k'. unfold disc_names.
+  apply in_map_iff. exists (PNone, b). split; [reflexivity|].
+  apply filter_In. split; [exact Hin|]. cbn [snd]. rewrite Hg. reflexivity.
+Qed.
+
+Definition pending_after (m : mgr) (sid ns : str) : list (str * list str) :=
+  if is_pending m sid ns then
+    let l := match aget str_eqb (pending m) ns with Some l => remove_first l sid | None => [] end in
+    match l with [] => adel str_eqb (pending m) ns | _ => aset str_eqb (pending m) ns l end
+  else pending m.
+
+Lemma mgr_disconnect_spec m sid ns :
+  MOK m ->
+  let m' := mgr_disconnect m sid ns in
+  MOK m' /\ eio_from_sid m' sid ns = None /\
+  (forall ns', ns <> ns' -> ns_rooms m' ns' = ns_rooms m ns') /\
+  (ns_rooms m ns = None -> m' = m) /\
+  (ns_rooms m ns <> None -> callbacks m' = adel str_eqb (callbacks m) sid /\
+                            pending m' = pending_after m sid ns).
+Proof.
+  intros Hm m'. subst m'. unfold mgr_disconnect.
+  destruct (ns_rooms m ns) as [rm|] eqn:Hns.
+  2:{ split; [exact Hm|]. split; [unfold eio_from_sid; rewrite room_of_none, Hns; reflexivity|].
+      split; [reflexivity|]. split; [reflexivity|]. intro H. contradiction. }
+  fold (disc_names rm sid).
+  destruct (fold_leave_spec sid ns (disc_names rm sid) m Hm) as (Hm1 & Hp1 & Hc1 & Hf1 & He1 & _).
+  set (m1 := fold_left (fun m r => leave_room m sid ns r) (disc_names rm sid) m) in *.
+  assert (He : eio_from_sid m1 sid ns = None).
+  { apply He1. unfold eio_from_sid. rewrite room_of_none, Hns.
+    destruct (none_bd rm) as [b|] eqn:Hb; [|right; reflexivity].
+    destruct (bd_get b sid) as [e|] eqn:Hg; [left; eapply disc_names_none; eassumption|right; reflexivity]. }
+  set (m2 := mkMgr (rooms m1) (pending m1) (adel str_eqb (callbacks m1) sid)).
+  assert (Hpend : is_pending m2 sid ns = is_pending m sid ns) by (unfold is_pending; cbn [pending m2]; rewrite Hp1; reflexivity).
+  rewrite Hpend. unfold pending_after.
+  destruct (is_pending m sid ns).
+  - split; [apply (MOK_rooms m1); [reflexivity|exact Hm1]|].
+    split; [exact He|]. split; [exact Hf1|]. split; [discriminate|]. intros _.
+    cbn [callbacks pending m2]. rewrite Hc1, Hp1. split; reflexivity.
+  - split; [apply (MOK_rooms m1); [reflexivity|exact Hm1]|].
+    split; [exact He|]. split; [exact Hf1|]. split; [discriminate|]. intros _.
+    cbn [callbacks pending m2]. rewrite Hc1, Hp1. split; reflexivity.
+Qed.
+
+(* ---- pre_disconnect ---- *)
+Lemma pre_disconnect_rooms m sid ns : rooms (fst (pre_disconnect m sid ns)) = rooms m.
+Proof. unfold pre_disconnect. destruct (room_of m ns PNone); reflexivity. Qed.
+Lemma pre_disconnect_callbacks m sid ns : callbacks (fst (pre_disconnect m sid ns)) = callbacks m.
+Proof. unfold pre_disconnect. destruct (room_of m ns PNone); reflexivity. Qed.
+Lemma pre_disconnect_pending m sid ns :
+  pending (fst (pre_disconnect m sid ns)) =
+  aset str_eqb (pending m) ns ((match aget str_eqb (pending m) ns with Some l => l | None => [] end) ++ [sid]).
+Proof. unfold pre_disconnect. destruct (room_of m ns PNone); reflexivity. Qed.
+Lemma pre_disconnect_res m sid ns :
+  snd (pre_disconnect m sid ns) =
+  match room_of m ns PNone with Some b => Ok (bd_get b sid) | None => Err KeyError end.
+Proof. unfold pre_disconnect. destruct (room_of m ns PNone); reflexivity. Qed.
+Lemma MOK_pre_disconnect m sid ns : MOK m -> MOK (fst (pre_disconnect m sid ns)).
+Proof. apply MOK_rooms. apply pre_disconnect_rooms. Qed.
+
+Lemma remove_first_app_new l x : ~ In x l -> remove_first (l ++ [x]) x = l.
+Proof.
+  induction l as [|y l IH]; cbn [remove_first app]; intro H.
+  - rewrite str_eqb_refl. reflexivity.
+  - destruct (str_eqb y x) eqn:E.
+    + apply str_eqb_eq in E. subst. exfalso. apply H. left. reflexivity.
+    + rewrite IH; [reflexivity|]. intro; apply H; right; assumption.
+Qed.
+Lemma existsb_str_in x l : existsb (str_eqb x) l = true <-> In x l.
+Proof.
+  rewrite existsb_exists. split.
+  - intros (y & Hin & E). apply str_eqb_eq in E. subst. exact Hin.
+  - intro H. exists x. split; [exact H|apply str_eqb_refl].
+Qed.
+Lemma existsb_str_app_self x l : existsb (str_eqb x) (l ++ [x]) = true.
+Proof. apply existsb_str_in. apply in_or_app. right. left. reflexivity. Qed.
+
+(* marking a sid that is not pending, then removing the mark: the table is as before,
+   provided no namespace had an empty list *)
+Lemma pending_roundtrip m sid ns :
+  is_pending m sid ns = false -> aget str_eqb (pending m) ns <> Some [] ->
+  pending_after (fst (pre_disconnect m sid ns)) sid ns = pending m.
+Proof.
+  intros Hp Hne. unfold pending_after, is_pending in *. rewrite pre_disconnect_pending.
+  rewrite aget_aset_same by apply str_eqb_refl. rewrite existsb_str_app_self.
+  destruct (aget str_eqb (pending m) ns) as [l|] eqn:Hl.
+  - assert (Hnot : ~ In sid l).
+    { intro Hin. apply existsb_str_in in Hin. rewrite Hin in Hp. discriminate. }
+    rewrite remove_first_app_new by exact Hnot.
+    destruct l as [|y l]; [congruence|].
+    induction (pending m) as [|[k v] p IH]; cbn [aget aset] in *; [discriminate|].
+    destruct (str_eqb k ns) eqn:E; cbn [aset]; rewrite E.
+    + inversion Hl; subst. reflexivity.
+    + rewrite IH by assumption. reflexivity.
+  - cbn [app remove_first]. rewrite str_eqb_refl.
+    apply adel_aset_new; [exact Hl|apply str_eqb_refl].
+Qed.
+
+(* ---- bidict ---- *)
+Lemma bd_inv_aset_new b sid eio : bd_inv b eio = None -> bd_inv (aset str_eqb b sid eio) eio = Some sid.
+Proof.
+  induction b as [|[s e] b IH]; cbn [bd_inv aset]; intro H.
+  - rewrite str_eqb_refl. reflexivity.
+  - destruct (str_eqb e eio) eqn:E; [discriminate|].
+    destruct (str_eqb s sid) eqn:Es; cbn [bd_inv].
+    + rewrite str_eqb_refl. apply str_eqb_eq in Es. subst. reflexivity.
+    + rewrite E. exact (IH H).
+Qed.
+Lemma bd_get_aset_same b sid eio : bd_get (aset str_eqb b sid eio) sid = Some eio.
+Proof. apply aget_aset_same. apply str_eqb_refl. Qed.
+Lemma bd_inv_in b eio s : bd_inv b eio = Some s -> In (s, eio) b.
+Proof.
+  induction b as [|[s' e] b IH]; cbn [bd_inv]; [discriminate|].
+  destruct (str_eqb e eio) eqn:E; intro H.
+  - inversion H; subst. apply str_eqb_eq in E. subst. left. reflexivity.
+  - right. exact (IH H).
+Qed.
+
+(* ---- put_member / connect / enter_room ---- *)
+Definition pm_rm (m : mgr) (ns : str) : roommap := match ns_rooms m ns with Some rm => rm | None => [] end.
+Definition pm_b (m : mgr) (ns : str) (room : pv) : bidict :=
+  match aget room_eqb (pm_rm m ns) room with Some b => b | None => [] end.
+
+Lemma put_member_unfold m ns room sid eio :
+  put_member m ns room sid eio =
+  (set_rooms m (aset str_eqb (rooms m) ns
+                     (aset room_eqb (pm_rm m ns) room
+                           (match bd_put (pm_b m ns room) sid eio with Some b' => b' | None => pm_b m ns room end))),
+   match bd_put (pm_b m ns room) sid eio with Some _ => true | None => false end).
+Proof.
+  unfold put_member, pm_b, pm_rm.
+  destruct (bd_put _ sid eio); reflexivity.
+Qed.
+
+Lemma rm_ok1_pm_rm m ns : MOK m -> rm_ok1 (pm_rm m ns).
+Proof.
+  intro Hm. unfold pm_rm. destruct (ns_rooms m ns) eqn:H; [eapply MOK_ns; eassumption|apply rm_ok1_nil].
+Qed.
+
+Lemma bd_put_keys b sid eio b' : bd_put b sid eio = Some b' -> NoDup (map fst b) -> NoDup (map fst b').
+Proof.
+  unfold bd_put. destruct (bd_inv b eio) as [s'|].
+  - destruct (str_eqb s' sid); [|discriminate]. intro H; inversion H; subst. tauto.
+  - intro H; inversion H; subst. apply skeys_aset.
+Qed.
+
+Lemma rm_ok1_aset rm room b :
+  rm_ok1 rm -> (room = PNone -> NoDup (map fst b)) -> rm_ok1 (aset room_eqb rm room b).
+Proof.
+  intros [Hno Hnd] Hb. split; [apply none_once_aset; exact Hno|].
+  intros b0 H0. destruct (pv_eqb room PNone) eqn:Er.
+  - apply pv_eqb_eq in Er. subst. rewrite none_bd_aset_none in H0. inversion H0; subst. apply Hb. reflexivity.
+  - assert (Hne : room <> PNone) by (intro; subst; rewrite pv_eqb_refl in Er; discriminate).
+    rewrite none_bd_aset_other in H0 by exact Hne. exact (Hnd _ H0).
+Qed.
+
+Lemma pm_b_none_keys m ns : MOK m -> NoDup (map fst (pm_b m ns PNone)).
+Proof.
+  intro Hm. unfold pm_b. destruct (rm_ok1_pm_rm m ns Hm) as [_ Hnd].
+  fold (none_bd (pm_rm m ns)). destruct (none_bd (pm_rm m ns)) as [b|] eqn:Hb; [exact (Hnd _ eq_refl)|constructor].
+Qed.
+
+Lemma MOK_put_member m ns room sid eio : MOK m -> MOK (fst (put_member m ns room sid eio)).
+Proof.
+  intro Hm. rewrite put_member_unfold. cbn [fst]. apply MOK_aset_ns; [exact Hm|].
+  apply rm_ok1_aset; [apply rm_ok1_pm_rm; exact Hm|].
+  intros ->. pose proof (pm_b_none_keys m ns Hm) as Hk.
+  destruct (bd_put (pm_b m ns PNone) sid eio) as [b'|] eqn:Hp; [eapply bd_put_keys; eassumption|exact Hk].
+Qed.
+
+Lemma put_member_frame m ns room sid eio :
+  let m' := fst (put_member m ns room sid eio) in
+  pending m' = pending m /\ callbacks m' = callbacks m /\
+  (forall ns', ns <> ns' -> ns_rooms m' ns' = ns_rooms m ns') /\
+  ns_rooms m' ns = Some (aset room_eqb (pm_rm m ns) room
+                           (match bd_put (pm_b m ns room) sid eio with Some b' => b' | None => pm_b m ns room end)).
+Proof.
+  rewrite put_member_unfold. cbn [fst]. split; [reflexivity|]. split; [reflexivity|]. split.
+  - intros ns' Hne. unfold ns_rooms. cbn [rooms set_rooms]. apply saget_aset_other. exact Hne.
+  - unfold ns_rooms. cbn [rooms set_rooms]. apply aget_aset_same. apply str_eqb_refl.
+Qed.
+
+Lemma MOK_mgr_connect m eio ns sid : MOK m -> MOK (fst (mgr_connect m eio ns sid)).
+Proof.
+  intro Hm. unfold mgr_connect.
+  pose proof (MOK_put_member m ns PNone sid eio Hm) as H1.
+  destruct (put_member m ns PNone sid eio) as [m1 [|]]; cbn [fst] in *; [|exact H1].
+  pose proof (MOK_put_member m1 ns (PStr sid) sid eio H1) as H2.
+  destruct (put_member m1 ns (PStr sid) sid eio) as [m2 ok]. exact H2.
+Qed.
+
+(* the transport is already connected to the namespace under another sid: refused, nothing changes *)
+Lemma mgr_connect_dup m eio ns sid b s' :
+  room_of m ns PNone = Some b -> bd_inv b eio = Some s' -> s' <> sid ->
+  mgr_connect m eio ns sid = (m, None).
+Proof.
+  intros Hb Hi Hne. unfold mgr_connect. rewrite put_member_unfold.
+  assert (Hrm : exists rm, ns_rooms m ns = Some rm /\ none_bd rm = Some b).
+  { rewrite room_of_none in Hb. destruct (ns_rooms m ns) as [rm|]; [eauto|discriminate]. }
+  destruct Hrm as (rm & Hns & Hnb).
+  assert (Hpb : pm_b m ns PNone = b) by (unfold pm_b, pm_rm; rewrite Hns; fold (none_bd rm); rewrite Hnb; reflexivity).
+  rewrite Hpb. unfold bd_put. rewrite Hi.
+  destruct (str_eqb s' sid) eqn:E; [apply str_eqb_eq in E; contradiction|].
+  unfold pm_rm. rewrite Hns. rewrite (aset_aget_id room_eqb rm PNone b Hnb).
+  rewrite (aset_aget_id str_eqb (rooms m) ns rm Hns), set_rooms_id. reflexivity.
+Qed.
+
+(* the transport is not connected to the namespace: accepted *)
+Lemma mgr_connect_new m eio ns sid :
+  sid_from_eio m eio ns = None ->
+  let m' := fst (mgr_connect m eio ns sid) in
+  snd (mgr_connect m eio ns sid) = Some sid /\
+  room_of m' ns PNone = Some (aset str_eqb (pm_b m ns PNone) sid eio) /\
+  pending m' = pending m /\ callbacks m' = callbacks m /\
+  (forall ns', ns <> ns' -> ns_rooms m' ns' = ns_rooms m ns').
+Proof.
+  intros Hs. unfold mgr_connect.
+  assert (Hinv : bd_inv (pm_b m ns PNone) eio = None).
+  { unfold sid_from_eio in Hs. rewrite room_of_none in Hs. unfold pm_b, pm_rm.
+    destruct (ns_rooms m ns) as [rm|]; [|reflexivity]. fold (none_bd rm). destruct (none_bd rm); [exact Hs|reflexivity]. }
+  destruct (put_member_frame m ns PNone sid eio) as (Hp1 & Hc1 & Hf1 & Hn1).
+  rewrite put_member_unfold in *. cbn [fst] in *.
+  unfold bd_put in *. rewrite Hinv in *.
+  set (m1 := set_rooms m _) in *.
+  destruct (put_member_frame m1 ns (PStr sid) sid eio) as (Hp2 & Hc2 & Hf2 & Hn2).
+  destruct (put_member m1 ns (PStr sid) sid eio) as [m2 ok]. cbn [fst snd] in *.
+  split; [reflexivity|]. split.
+  - rewrite room_of_none, Hn2. rewrite none_bd_aset_other by discriminate.
+    unfold pm_rm. rewrite Hn1. apply none_bd_aset_none.
+  - split; [congruence|]. split; [congruence|]. intros ns' Hne. rewrite Hf2, Hf1 by exact Hne. reflexivity.
+Qed.
+(* ------------------------------------------------------------------ *)
 (* a concrete configuration and reachable state for the Examples      *)
 (* ------------------------------------------------------------------ *)
 Module Ex.
